@@ -152,4 +152,102 @@ def plainRead {α : Type} (nx ny nz total : Nat) (coords : DS (Nat × Nat × Nat
     (c : Nat × Nat × Nat) : Option α :=
   get (plainGrid nx ny nz total coords vals) (one ny nz c)
 
+/-! ## which quantities are stored, and the readers' fallbacks
+
+A hydro snapshot can store the number density and/or the mass density, the temperature and/or the
+pressure, and (optionally) the neutral fractions.  `encode` is `Hydro::ionization_to_hydro`
+(ρ = m_p n, P = (k/m_p) ρ T / μ with μ = ½(1 + x_H); the velocity limiter `c_s > max_velocity`
+is not active) followed by the writer's choice of datasets; `decodeBuffered` is the per-cell
+conversion loop of `BufferedCMacIonizeSnapshotDensityFunction::buffer_subgrid`, `decodePlain` the
+corresponding statements of `CMacIonizeSnapshotDensityFunction::initialize` (no `/Units` group).
+Generic over the number type (Float in the driver, ℚ in the theorems). -/
+
+/-- which datasets the writer was configured to produce -/
+structure Combo where
+  numberDensity : Bool
+  density : Bool
+  temperature : Bool
+  pressure : Bool
+  fractions : Bool
+deriving Repr, DecidableEq
+
+structure CellState (α : Type) where
+  n : α
+  T : α
+  xH : α
+deriving Repr
+
+/-- one cell as stored in the file -/
+structure Stored (α : Type) where
+  numberDensity : Option α
+  density : Option α
+  temperature : Option α
+  pressure : Option α
+  xH : Option α
+deriving Repr
+
+section
+variable {α : Type} [Add α] [Mul α] [Div α] [OfScientific α]
+
+/-- `Hydro::ionization_to_hydro` + the datasets selected by `DensityGridWriterFields`;
+`pcf = k / m_p` is `Hydro::_pressure_conversion_factor` -/
+def encode (mp pcf : α) (c : Combo) (s : CellState α) : Stored α :=
+  let density := mp * s.n
+  let mu := 0.5 * (1.0 + s.xH)
+  let pressure := pcf * density * s.T / mu
+  { numberDensity := if c.numberDensity then some s.n else none
+    density := if c.density then some density else none
+    temperature := if c.temperature then some s.T else none
+    pressure := if c.pressure then some pressure else none
+    xH := if c.fractions then some s.xH else none }
+
+/-- `BufferedCMacIonizeSnapshotDensityFunction::buffer_subgrid`: "NumberDensity" if the dataset
+exists, else "Density"; "Temperature" if it exists, else "Pressure"; neutral fractions default to
+`1.e-6`; then per cell FIRST `number_density /= m_p` (if the mass density was read) and THEN
+`temperature *= mu / (number_density * k)` (if the pressure was read) -/
+def decodeBuffered (mp k : α) (st : Stored α) : Option (CellState α) :=
+  let xH := match st.xH with | some x => x | none => 1.0e-6
+  let nd : Option (α × Bool) := match st.numberDensity, st.density with
+    | some n, _ => some (n, true)
+    | none, some r => some (r, false)
+    | none, none => none
+  let tp : Option (α × Bool) := match st.temperature, st.pressure with
+    | some t, _ => some (t, true)
+    | none, some p => some (p, false)
+    | none, none => none
+  match nd, tp with
+  | some (d, readN), some (t, readT) =>
+    let n := if readN then d else d / mp
+    let T := if readT then t else
+      let mu := 0.5 * (1.0 + xH)
+      t * (mu / (n * k))
+    some ⟨n, T, xH⟩
+  | _, _ => none
+
+/-- `CMacIonizeSnapshotDensityFunction::initialize` with its flags `use_density`, `use_pressure`:
+the density unit becomes `1/m_p` when the mass density is read, the temperature is computed from
+the RAW density times that unit, the density is scaled afterwards -/
+def decodePlain (mp k : α) (useDensity usePressure : Bool) (st : Stored α) : Option (CellState α) :=
+  let xH := match st.xH with | some x => x | none => 1.0e-6
+  let nd : Option (α × α) := match st.numberDensity, useDensity with
+    | some n, false => some (n, 1.0)
+    | _, _ => match st.density with
+      | some r => some (r, (1.0 : α) / mp)
+      | none => none
+  match nd with
+  | none => none
+  | some (raw, unitDensity) =>
+    let T : Option α := match st.temperature, usePressure with
+      | some t, false => some t
+      | _, _ => match st.pressure with
+        | some p =>
+          let mu := 0.5 * (1.0 + xH)
+          some (p * (mu / (raw * unitDensity * k * 1.0)))
+        | none => none
+    match T with
+    | none => none
+    | some T => some ⟨raw * unitDensity, T * 1.0, xH⟩
+
+end
+
 end CMacVerif.Snapshot
